@@ -92,7 +92,18 @@ fn build_reply(ids: &[Value], mode: Mode, ctr: &mut u64, id_str: bool) -> Vec<(V
 			}
 		}
 		Mode::Foreign => {
-			let foreign = match rt::draw("foreign_kind", 3) {
+			let foreign = match rt::draw("foreign_kind", 4) {
+				3 => {
+					// an id of the other JSON type with the same digits as an id of this batch ("3" for 3, 3 for "3"): not the
+					// id any request put on the wire
+					rt::probe("foreign_id_of_the_other_json_type");
+					let victim = rt::pick("type_confused", ids).clone();
+					match &victim {
+						Value::String(s) => s.parse::<u64>().map(|n| json!(n)).unwrap_or(json!(88887)),
+						Value::Number(n) => json!(n.to_string()),
+						_ => json!(88887),
+					}
+				}
 				0 => {
 					if id_str {
 						json!("88888")
@@ -191,7 +202,9 @@ fn check_batches(client_kind: &str, recs: &[BatchRec], id_of: &BTreeMap<u64, Str
 					}
 					// someone else's answer?
 					if let Some(o) = sent.iter().find(|s| &s.ans == a) {
-						rt::violate(P, "misplaced-entry", client_kind.to_string(), format!("batch {:?}: entry {i} (id {id}) was filled with {a:?}, which the peer sent for id {} (request nonce {:?})", r.nonces, o.id, o.for_nonce));
+						// the same digits in the other JSON type ("3" for 3) are not the id the request carried
+						let other_type = o.id != *id && o.id.trim_matches('"') == id.trim_matches('"');
+						rt::violate(P, "misplaced-entry", if other_type { format!("id-of-the-other-json-type:{client_kind}") } else { client_kind.to_string() }, format!("batch {:?}: entry {i} (id {id}) was filled with {a:?}, which the peer sent for id {} (request nonce {:?})", r.nonces, o.id, o.for_nonce));
 					} else if matches!(a, Ans::Ok(_)) {
 						rt::violate(P, "invented-entry", client_kind.to_string(), format!("batch {:?}: entry {i} (id {id}) holds {a:?}, which the peer never sent", r.nonces));
 					}
